@@ -351,9 +351,15 @@ func genLineItemAttrs(r *prng.R) *astisub.StyleAttributes {
 // GenList draws a cue list with 0..6 styles and 0..4 regions carrying
 // heterogeneous attribute subsets, parent-style and region->style links and
 // present / absent / partial metadata.
-func GenList(r *prng.R, idx int) ListSpec {
+func GenList(r *prng.R, idx int) ListSpec { return GenListSized(r, idx, 6, 4, 8) }
+
+// GenListSized is GenList with explicit upper bounds for styles, regions and cues.
+func GenListSized(r *prng.R, idx, maxStyles, maxRegions, maxItems int) ListSpec {
 	l := ListSpec{Name: fmt.Sprintf("gen-list-%d", idx)}
-	ns := r.Range(0, 6)
+	ns := r.Range(0, maxStyles)
+	if maxStyles > 6 {
+		ns = r.Range(maxStyles/2, maxStyles)
+	}
 	for i := 0; i < ns; i++ {
 		// ids of different lengths, digit counts and case, in no particular order: "s9" next to "s10", "Default" next to "a2"
 		id := fmt.Sprintf("%s%d", r.Pick("s", "s", "style", "Z", "a", "Default", "x_"), r.Intn(13))
@@ -372,9 +378,14 @@ func GenList(r *prng.R, idx int) ListSpec {
 		}
 		l.Styles = append(l.Styles, st)
 	}
-	nr := r.Range(0, 4)
+	nr := r.Range(0, maxRegions)
 	for i := 0; i < nr; i++ {
 		rg := RegionSpec{ID: fmt.Sprintf("%s%d", r.Pick("r", "r", "Region", "B"), 8+3*i+r.Intn(3)), Attrs: genStyleAttrs(r, 10+i)}
+		for _, o := range l.Regions {
+			if o.ID == rg.ID {
+				rg.ID += "x"
+			}
+		}
 		if ns > 0 && r.Bool(0.5) {
 			rg.Style = l.Styles[r.Intn(ns)].ID
 		}
@@ -416,7 +427,10 @@ func GenList(r *prng.R, idx int) ListSpec {
 		}
 		l.Meta = m
 	}
-	n := r.Range(0, 8)
+	n := r.Range(0, maxItems)
+	if maxItems > 8 {
+		n = r.Range(maxItems/3, maxItems)
+	}
 	if n == 0 && r.Bool(0.8) {
 		n = 1
 	}
